@@ -1,7 +1,7 @@
 """C01 — Interest / Data encode-decode round trip (structure of the two-pass encoder and of make/parse). DESIGN §4 C01."""
 import ast
 
-from .common import ctx, returns, calls_in_ctx, reach_from_succ, site, srcs_text, caller_object_reaches, full_text, call_arg, alias_text, bulk_appends
+from .common import ctx, returns, calls_in_ctx, reach_from_succ, site, srcs_text, caller_object_reaches, full_text, call_arg, alias_text, bulk_appends, orient
 from .c08 import size_rules, stale_rule
 from ..flow import callee_attr
 from ..linexpr import lin, show, NotLinear
@@ -131,27 +131,50 @@ def run(R):
         probs = []
         enc = [n for (n, c) in calls_in_ctx(cx, attr='encode') if ast.unparse(call_arg(P, cx, c, 'markers', ast.Constant(None))) == 'markers']
         shc = calls_in_ctx(cx, pred=lambda c: ast.unparse(c.func) == 'shrink_length')
-        gt = [t for t in cx.cfg.nodes if t.kind == 'test' and ast.unparse(t.ast) in ('shrink_size > 0', 'shrink_size', 'shrink_size != 0', 'shrink_size >= 1')]
-        if len(enc) != 1 or len(shc) != 1 or len(gt) != 1:
-            probs.append((f'{len(enc)} encodes / {len(shc)} shrinks / {len(gt)} tests', cx.f.node))
+        if len(enc) != 1 or len(shc) != 1:
+            probs.append((f'{len(enc)} encodes / {len(shc)} shrinks', cx.f.node))
         else:
             (sn, sc) = shc[0]
-            if sn.id in cx.cfg.reachable(removed_edges={(gt[0].id, True)}):
+            retvar = [nm for (nm, v) in cx.cfg.defs_of(enc[0])]
+            amount = sc.args[1] if len(sc.args) > 1 else None
+            # the guard: a test of the shrink amount (> 0, != 0, >= 1, truthiness) whose positive edge is the only way to the shrink
+            def positive(t):
+                a_ = t.ast
+                if amount is not None and ast.unparse(a_) == ast.unparse(amount):
+                    return True
+                o = orient(a_, lambda e: amount is not None and ast.unparse(e) == ast.unparse(amount))
+                if o is not None and isinstance(o.comparators[0], ast.Constant):
+                    k = o.comparators[0].value
+                    if (isinstance(o.ops[0], ast.Gt) and k == 0) or (isinstance(o.ops[0], ast.NotEq) and k == 0) or (isinstance(o.ops[0], ast.GtE) and k == 1):
+                        return True
+                    if (isinstance(o.ops[0], ast.LtE) and k == 0) or (isinstance(o.ops[0], ast.Eq) and k == 0) or (isinstance(o.ops[0], ast.Lt) and k == 1):
+                        return False
+                return None
+            gt = [(t, positive(t)) for t in cx.cfg.nodes if t.kind == 'test' and positive(t) is not None]
+            if len(gt) != 1:
+                probs.append((f'{len(gt)} tests of the shrink amount guard the shrink', sc))
+            elif sn.id in cx.cfg.reachable(removed_edges={(gt[0][0].id, gt[0][1])}):
                 probs.append(('the packet is shrunk although nothing was reserved in excess', sc))
             if not cx.cfg.dominates(enc[0], sn):
                 probs.append(('shrink before encode', sc))
-            retvar = [nm for (nm, v) in cx.cfg.defs_of(enc[0])]
-            if [ast.unparse(a) for a in sc.args] != [retvar[0] if retvar else '?', 'shrink_size'] or [nm for (nm, v) in cx.cfg.defs_of(sn)] != retvar:
-                probs.append(('shrink_length is not applied to the encoded buffer with the shrink amount, or its result is dropped', sc))
-            ss = [v for n in cx.cfg.nodes for (nm, v) in cx.cfg.defs_of(n) if nm == 'shrink_size' and isinstance(v, ast.AST)]
-            if len(ss) != 1 or f"_shrink_len.get_arg(markers['{inner}##inner_markers'])" not in ast.unparse(ss[0]):
+            enc_call = [c for c in enc[0].calls() if callee_attr(c) == 'encode'][0]
+
+            def from_encode(node_, e_, allow_shrunk):
+                srcs_ = cx.sources(node_, e_)
+                return bool(srcs_) and all(s_.kind == 'expr' and (s_.expr is enc_call or (allow_shrunk and s_.expr is sc)) for s_ in srcs_)
+            if not from_encode(sn, sc.args[0], False):
+                probs.append(('shrink_length is not applied to the encoded buffer', sc))
+            if amount is None or f"_shrink_len.get_arg(markers['{inner}##inner_markers'])" not in full_text(cx, amount):
                 probs.append(('the shrink amount is not read from the inner markers of this encode', cx.f.node))
             for r in returns(cx):
                 v = r.ast.value
                 first = v.elts[0] if isinstance(v, ast.Tuple) else v
-                if not retvar or ast.unparse(first) != retvar[0]:
-                    probs.append((f'returns {ast.unparse(first)} instead of the encoded buffer', r.ast))
-            # a skipped shrink (True edge not taken) must also lead to the return of the unshrunk buffer: fine by construction
+                if not from_encode(r, first, True):
+                    probs.append((f'returns {ast.unparse(first)}, which is not the encoded (and possibly shrunk) buffer', r.ast))
+                elif r.id in cx.cfg.reachable(start=sn, follow_exc=False) and any(s_.expr is enc_call for s_ in cx.sources(r, first)
+                                                                                  if cx.cfg.path_exists(sn, s_.node) or s_.node is enc[0]) \
+                        and not any(s_.expr is sc for s_ in cx.sources(r, first)):
+                    probs.append(('the result of shrink_length is dropped', sc))
         sg = [c for (n, c) in calls_in_ctx(cx, attr='set_arg') if ast.unparse(c.func).endswith('_signer.set_arg')]
         if len(sg) != 1 or [ast.unparse(a) for a in sg[0].args] != ['markers', 'signer']:
             probs.append(('the signer argument is not handed to the encoder', cx.f.node))
@@ -249,7 +272,7 @@ def run(R):
     # need_final_name
     inst = 'make_interest :: final name is the name that was encoded (with the digest component)'
     fr = [r for r in returns(mi) if isinstance(r.ast.value, ast.Tuple)]
-    if fr and all("InterestPacketValue.name.get_final_name(markers['interest##inner_markers'])" == ast.unparse(r.ast.value.elts[1]) for r in fr):
+    if fr and all("InterestPacketValue.name.get_final_name(markers['interest##inner_markers'])" == full_text(mi, r.ast.value.elts[1]) for r in fr):
         R.ok('C01.SIB.1', inst, site(mi, fr[0].ast))
     else:
         R.fail('C01.SIB.1', inst, F3 + '.make_interest', fr[0].ast if fr else 'def make_interest', 'the final name is not taken from the encoder\'s preprocessed name', site(mi, mi.f.node))
